@@ -335,6 +335,20 @@ impl Property for C04 {
             );
             rep.class("failed-encode-then-encode-again");
         }
+        // a peer that stalls once (WouldBlock) or an interrupted write: the error is reported, or every byte arrives exactly once
+        if src.chance(40) && !new_bytes.is_empty() {
+            let accept = src.below(new_bytes.len() + 1);
+            let kind = if src.chance(128) { std::io::ErrorKind::WouldBlock } else { std::io::ErrorKind::Interrupted };
+            let mut w = crate::iohelp::StallWriter { accept, kind, stalled: false, got: vec![] };
+            let r = enc.encode(&lib, &mut w);
+            ensure!(
+                r.is_err() || w.got == new_bytes,
+                "output-corrupted-after-a-stalled-write",
+                "a writer that answered {:?} once after {} bytes: encode returned {:?} and the writer holds {:?} instead of {:?}",
+                kind, accept, r.map_err(|e| e.to_string()), String::from_utf8_lossy(&w.got), text
+            );
+            rep.class("writer-stalls-once");
+        }
         // a writer that takes only part of what it is offered (short writes are legal for io::Write): nothing may be lost
         if src.chance(64) && !new_bytes.is_empty() {
             let max = [1usize, 2, 3, 5, 7, 16, 64][src.below(7)];
